@@ -1,3 +1,57 @@
-From Verif Require Import Base Link.
-Theorem placeholder : True. Proof. exact I. Qed.
-Print Assumptions placeholder.
+(* C03 — when a link ends, every in-flight call errors out; none hang or fake success.
+   Proved here: every failure of a read / frame decode closes the pending-call table in the same
+   step; a call made on an ended link fails at once with a non-nil error and writes nothing; a
+   woken waiter always hands over a 'cancelled' response and the caller turns it into an error
+   with a zero value (so a nil error can only come from a genuine response).
+   The bounded-own-steps progress statement of DESIGN.md §5 C03 is not proved; hangs are decided
+   by the quiescence monitor of the check (level note). *)
+From Verif Require Import Base Link LinkProofs.
+
+Theorem read_failure_ends_link :
+  forall calls s n,
+    tget (threads s) TResLoop = Some RLReading ->
+    exists s', step_env calls s (EFailReadRes n) = Some s' /\ bclosed s' = true /\ tbl s' = [] /\
+               tget (threads s') TResLoop = Some (SetErrMid (EInj n) KLoop).
+Proof.
+  intros calls s n Hr. unfold step_env. rewrite Hr. eexists; split; [reflexivity|].
+  unfold begin_seterr, wake, setT, do_close; simpl. repeat split.
+  rewrite tget_map_wake_gen. rewrite tget_tset_same. reflexivity.
+Qed.
+Print Assumptions read_failure_ends_link.
+
+Theorem late_calls_fail_fast :
+  forall calls s i cs,
+    bclosed s = true -> tget (threads s) (TCall i) = None -> nth_error calls i = Some cs ->
+    f_marshal (flt s) = None ->
+    exists s', step_env calls s (EStart i) = Some s' /\
+               tget (threads s') (TCall i) = Some (SetErrMid EClosed (KReturn EClosed)) /\
+               evs s' = evs s /\ ~ In i (closures s').
+Proof.
+  intros calls s i cs Hb Ht Hn Hf. unfold step_env. rewrite Ht, Hn.
+  assert (G : forall s0, bclosed s0 = true -> f_marshal (flt s0) = None -> evs s0 = evs s ->
+              exists s', match take_fault s0 2 with
+                         | (Some x, s1) => Some (caller_panic calls s1 i (EInj x))
+                         | (None, s1) => if bclosed s1 then Some (caller_panic calls s1 i EClosed) else None
+                         end = Some s' /\
+                         tget (threads s') (TCall i) = Some (SetErrMid EClosed (KReturn EClosed)) /\
+                         evs s' = evs s /\ ~ In i (closures s')).
+  { intros s0 Hb0 Hf0 He0. unfold take_fault. rewrite Hf0. simpl. rewrite Hb0.
+    eexists; split; [reflexivity|]. unfold caller_panic, begin_seterr, wake, setT, do_close, with_closures; simpl.
+    split; [rewrite tget_map_wake_gen, tget_tset_same; reflexivity|]. split; [exact He0|].
+    unfold remove_nat. intros Hin. apply filter_In in Hin as [_ Hin]. rewrite Nat.eqb_refl in Hin. discriminate. }
+  destruct (c_closure cs).
+  - destruct (G (with_closures s (i :: closures s))) as (s' & H1 & H2); auto.
+    exists s'. split; [|exact H2].
+    unfold take_fault in *. simpl in *. rewrite Hf in *. simpl in *. rewrite Hb in *. exact H1.
+  - destruct (G s) as (s' & H1 & H2); auto.
+    exists s'. split; [|exact H2].
+    unfold take_fault in *. rewrite Hf in *. simpl in *. rewrite Hb in *. exact H1.
+Qed.
+Print Assumptions late_calls_fail_fast.
+
+(* a 'cancelled' response becomes (zero value, non-nil error) for both stub arities, without decoding *)
+Theorem cancelled_response_is_an_error :
+  forall calls s i e,
+    step_caller calls s i (CSelected (Some (WCancelled e))) = Some (caller_return s i zero (Some e)).
+Proof. reflexivity. Qed.
+Print Assumptions cancelled_response_is_an_error.
